@@ -401,8 +401,28 @@ func (tb *termBuilder) call(c *ssa.Call, d int) *Term {
 		short = strings.TrimPrefix(short, "builtin:")
 		return &Term{Op: "call:" + short, Args: as}
 	}
+	// a single-result private helper all of whose success returns hand back one value (a computation
+	// factored out of its caller): the helper's own term with its parameters replaced by the arguments
+	if h := Callee(c); h != nil && !c.Call.IsInvoke() && c.Call.Signature().Results().Len() == 1 && d < 30 && !inlineTermBusy[h] {
+		if r := helperResult(c, 0); r != nil {
+			inlineTermBusy[h] = true
+			inner := (&termBuilder{memo: map[memoKey]*Term{}}).of(r, d+1)
+			delete(inlineTermBusy, h)
+			if !inner.HasOpaque() {
+				sub := map[*ssa.Parameter]*Term{}
+				for i, p := range h.Params {
+					if i < len(args) {
+						sub[p] = arg(i)
+					}
+				}
+				return inner.Subst(sub)
+			}
+		}
+	}
 	return opaque(c)
 }
+
+var inlineTermBusy = map[*ssa.Function]bool{}
 
 // modulusOf: the *big.Int wrapped by common.ModInt(m).
 func (tb *termBuilder) modulusOf(v ssa.Value, d int) *Term {
